@@ -247,7 +247,7 @@ func init() {
 			cat := rtEncodeCatalogue()
 			emit := func(ops []string) { g.emit("rt", cat, strings.Join(ops, ";")) }
 			// systematic: every ordered pair of versions for one file, with lines and an expiry mark between
-			vers := []int{0, 1, 2, 3, 4, 5, 6, 10}
+			vers := []int{0, 1, 2, 3, 4, 5, 6, 10, 11, 16}
 			for _, a := range vers {
 				for _, b := range vers {
 					emit([]string{fmt.Sprintf("w:a.mtail:%d", a), "load", "l:x", "l:y", "x:a.mtail:c:x:3600000", fmt.Sprintf("w:a.mtail:%d", b), "load", "l:x", "load"})
@@ -282,7 +282,7 @@ func init() {
 				for j := 0; j < ln; j++ {
 					switch g.r.intn(10) {
 					case 0, 1, 2:
-						ops = append(ops, fmt.Sprintf("w:%s:%d", files[g.r.intn(2)], []int{0, 1, 2, 3, 4, 5, 6, 7, 8, 10}[g.r.intn(10)]))
+						ops = append(ops, fmt.Sprintf("w:%s:%d", files[g.r.intn(2)], []int{0, 1, 2, 3, 4, 5, 6, 7, 8, 10, 11, 16}[g.r.intn(12)]))
 					case 3, 4, 5:
 						ops = append(ops, "load")
 					case 6, 7:
